@@ -98,11 +98,11 @@ func badInfixOps(t *Ty, cur string) []string {
 	case KBool:
 		c = []string{"<", "+"}
 	case KStr:
-		c = []string{"-", "<", "*"}
+		c = []string{"-", "*"}
 	case KAny, KUnknown, KNever:
 		return nil
 	default:
-		c = []string{"+", "<"}
+		c = []string{"-", "<"}
 	}
 	var out []string
 	for _, o := range c {
@@ -127,7 +127,7 @@ func badAssignOps(t *Ty, cur string) []string {
 	case KAny, KUnknown, KNever:
 		return nil
 	default:
-		c = []string{"+="}
+		c = []string{"-="}
 	}
 	var out []string
 	for _, o := range c {
